@@ -3,6 +3,7 @@
 
 def model_check(ctx):
     for cfg, expect in (('CL_idle1', None), ('CL_idle3', None), ('CL_lit3', None), ('CL_closed2', None), ('CL_mixed2', None),
+                        ('CL_idle4', None), ('CL_lit4', None), ('CL_mixed3', None),
                         ('W_D7', 'NoStranded'), ('W_D7b', 'StartSync'), ('W_ReCheck', 'OneLockPerLoop'), ('W_ReCheck2', 'NoAlreadyRunning')):
         if expect:
             ctx.mc('crossloop', 'MC_CrossLoop', cfg + '.cfg', expect_violation=expect, timeout=300)
